@@ -169,6 +169,7 @@ class Reader:
         self.names: dict[str, set] = {}     # display name -> distinct SymPy objects printed under it
         self.special: set[str] = set()      # special heads met
         self.heads: set[str] = set()        # display names of applied (user) functions
+        self.raw_latex: dict[str, str] = {}  # printed LaTeX name -> display_latex as declared
         self.assume: dict[str, str] = {}    # display name -> "pos" | "neg" | "nonneg" | "nz"  (declared assumptions)
 
     # ---- names ----------------------------------------------------------------------------------
@@ -178,7 +179,10 @@ class Reader:
             nm = e.display_name if isinstance(e, DimensionSymbol) else str(getattr(e, "name"))
         else:
             raw = e.display_latex if isinstance(e, DimensionSymbol) else str(getattr(e, "name"))
-            nm = latex_name(raw)
+            # SymPy prints a Quantity through Quantity._latex, i.e. its latex_repr verbatim; every other symbol goes
+            # through LatexPrinter._deal_with_super_sub
+            nm = raw if isinstance(e, sympy.physics.units.Quantity) else latex_name(raw)
+            self.raw_latex[nm] = raw
         self.names.setdefault(nm, set()).add(e)
         kind = None
         if getattr(e, "is_positive", None):
@@ -619,6 +623,8 @@ def find_distinguishing(rng, orig, parsed, hyp_list, tries=60):
         except (ZeroDivisionError, OverflowError, ValueError, KeyError):
             continue
         ok_points += 1
+        if a != a or abs(a) > 1e150:
+            continue        # the original overflows / is not a number here: nothing to compare
         try:
             b = evaluate(parsed, val)
         except KeyError as e:
@@ -994,7 +1000,7 @@ def cong_script(em: CoqEmit, parsed, orig, all_names):
 IDENT = re.compile(r"^[A-Za-z_][A-Za-z0-9_]*$")
 
 
-def build_lemma(kind: str, idx: int, parse_call: str, s: str, parsed, orig_sides, tactic: str, assume=None):
+def build_lemma(kind: str, idx: int, parse_call: str, s: str, parsed, orig_sides, tactic: str, assume=None, euler="E"):
     """One obligation:  parse(s) = Some a   /\\   forall phi x.., hyps -> aeval rho phi a_side = [[orig_side]]  (per side).
 
     parse_call : e.g. 'parse_code [..names..]'  (applied to the string literal)
@@ -1014,8 +1020,8 @@ def build_lemma(kind: str, idx: int, parse_call: str, s: str, parsed, orig_sides
             em.var(n)
     # the identifier E denotes Euler's number unless a symbol of the expression is displayed as E
     consts = {}
-    if "E" not in em.vars and any("E" in aexpr_names(p) for p in psides):
-        consts["E"] = EULER
+    if euler and euler not in em.vars and any(euler in aexpr_names(p) for p in psides):
+        consts[euler] = EULER
     prt = [aexpr_rtree(p, consts) for p in psides]
     for t in prt:
         for n in var_names(t):
@@ -1284,7 +1290,7 @@ def classify_and_build(prop: str, cases, parse_fn: str, tactic: str = "rd_solve"
         for t in c["sides"]:
             known.update(var_names(t))
             heads.update(phi_heads(t))
-        foreign = [n for n in aexpr_names(a) if n not in known and n != "pi" and not (n == "E" and c.get("euler_ok", True))]
+        foreign = [n for n in aexpr_names(a) if n not in known and n != "pi" and n != c.get("euler", "E")]
         if foreign:
             c["status"] = "bad"
             c["bad"] = (f"rendering mentions names that are not display names of the expression: {foreign} in {c['s']!r}", True)
@@ -1296,7 +1302,7 @@ def classify_and_build(prop: str, cases, parse_fn: str, tactic: str = "rd_solve"
             continue
         try:
             stmt, proof, info = build_lemma(prop, i, f"{parse_fn} {names_lit(c['names'])}", c["s"], a, c["sides"], tactic,
-                c.get("assume"))
+                c.get("assume"), c.get("euler", "E"))
         except ValueError as e:
             c["status"] = "bad"
             c["bad"] = (f"{e}: {c['s']!r}", True)
@@ -1356,7 +1362,8 @@ def numeric_only_check(ctx, c, rng):
         psides = (a,)
     assume = [(kd, ("var", n)) for n, kd in (c.get("assume") or {}).items() if kd]
     for o, p in zip(c["sides"], psides):
-        pr = aexpr_rtree(p, {"E": EULER} if "E" not in var_names(o) else None)
+        eu = c.get("euler", "E")
+        pr = aexpr_rtree(p, {eu: EULER} if eu and eu not in var_names(o) else None)
         names = set(var_names(o)) | set(var_names(pr))
         hs = [h for h in assume if h[1][1] in names]
         found = find_distinguishing(rng, o, pr, hs, tries=24)
